@@ -35,6 +35,15 @@ pub fn run(args: &Args) -> i32 {
                 inserted.insert(*s);
             }
         }
+        // the same set built in the opposite order, and with every member inserted twice: words are
+        // additive whatever order they arrive in
+        let reversed = ShapeSet::new(SHAPES.iter().enumerate().rev().filter(|(i, _)| mask & (1 << i) != 0).map(|(_, s)| *s));
+        let mut twice = ShapeSet::default();
+        for (i, s) in SHAPES.iter().enumerate().rev().chain(SHAPES.iter().enumerate()) {
+            if mask & (1 << i) != 0 {
+                twice.insert(*s);
+            }
+        }
         if set.is_empty() != (mask == 0) {
             c.violation("C18:api:is-empty", format!("ShapeSet {mask:04b}: is_empty() = {}", set.is_empty()), json!({"set_mask": mask}));
         }
@@ -67,7 +76,7 @@ pub fn run(args: &Args) -> i32 {
                     (contains, check.is_ok(), leaf_ok)
                 };
                 let mut all = vec![];
-                for (label, s) in [("collect", &set), ("new", &set2), ("insert", &inserted)] {
+                for (label, s) in [("collect", &set), ("new", &set2), ("insert", &inserted), ("new-reversed", &reversed), ("insert-twice", &twice)] {
                     let _ = label;
                     all.push(("Shape", probe("Shape", s, &|s| (s.contains(&shape), s.check(&shape)))));
                     all.push(("syn::Fields", probe("syn::Fields", s, &|s| (s.contains(&data_struct.fields), s.check(&data_struct.fields)))));
